@@ -16,8 +16,8 @@ def harness_files(tier, seed):
 META = dict(
     bounds="values: a symbolic leaf (6 kinds) placed by the solver in any field of a generic instantiation, directly or inside its "
            "List / Dict / Optional, through from_data and through the constructor; symbolic ints for ordering/option probes",
-    configs="5 plain hierarchies (16 classes: override in place, kw_only option inherited/overridden over 4 levels, KW_ONLY sentinel "
-            "with redeclaration, non-pane mixin first/last, diamond) checked against a reference merge; 16 generic instantiations (incl. permuted re-use of type variable names, partial binding, a generic dataclass as a field type of another) "
+    configs="6 plain hierarchies (20 classes: a keyword-only field in the middle with field-less leaves, override in place, kw_only option inherited/overridden over 4 levels, KW_ONLY sentinel "
+            "with redeclaration, non-pane mixin first/last, diamond) checked against a reference merge; 21 generic instantiations (incl. declared Generic[...] order, two generic bases, keyword-only fields, a type variable inside a compound argument, permuted re-use of type variable names, partial binding, a generic dataclass as a field type of another) "
             "(depth <= 3: bound, forwarded, re-parameterised two-parameter, field-less forwarding, nested forwarding); option "
             "inheritance over 3 levels + mixin (layouts, rename, allow_extra, frozen, custom)",
     stubs=[],
